@@ -6,7 +6,9 @@
    exactly once in each direction (it is an involution, and reader o writer is the identity), byte
    oriented fields are untouched, and the big-endian stream is the field-wise mirror. *)
 From Coq Require Import List String.
+From Sbdf Require Import Imp Gen.Prog ImpFacts ImpFacts7 ImpFactsSwap.
 From Sbdf Require Import File PrimFacts SevenBit ObjFacts VaFacts SliceFacts.
+From Coq Require Import List.
 From Sbdf.Gen Require Facts.
 
 Theorem C17_swap_sites : Facts.swap_sites = ["sbdf_read_int32"; "sbdf_read_objects"; "sbdf_write_int32"; "sbdf_write_objects"]%string.
@@ -47,3 +49,27 @@ Theorem C17_slices_both_configurations : forall swp cols, wf_ts cols ->
   rspec (ts_read swp None (zlen cols) None) (enc_ts swp cols) (owned_ts cols).
 Proof. intros swp cols W. split; [exact (wspec_ts swp cols W)|exact (rspec_ts swp cols W)]. Qed.
 Print Assumptions C17_slices_both_configurations.
+
+(* ---- what `swp` stands for, from the source.  Gen/Prog.v holds sbdf_swap of src/bswap.c translated
+   under BOTH build configurations (tools/c2imp.py: the default one, and -D__sparc which selects the
+   big-endian branch).  Default: the function body is empty - the buffer is untouched (swp = false).
+   Big-endian: for every element size sz and every buffer of count elements of sz bytes, every
+   element is reversed in place, nothing else is written, every access stays inside the buffer
+   (swp = true: `swapb true = rev` element by element). *)
+Theorem C17_source_swap_default : forall args buf f, (1 <= f)%nat ->
+  exists fin, call f prog_sbdf_swap_le args buf = ONormal fin /\ inb fin = buf /\ outb fin = [].
+Proof. exact swap_le_correct. Qed.
+Print Assumptions C17_source_swap_default.
+
+Theorem C17_source_swap_big_endian : forall sz cs, Forall (chunk_ok sz) cs -> 0 <= sz <= int_max -> zlen cs <= int_max ->
+  exists f0, forall f, (f0 <= f)%nat -> exists fin,
+    call f prog_sbdf_swap_be [VPtr RIn 0; VInt sz; VInt (zlen cs)] (concat cs) = ONormal fin /\
+    inb fin = concat (map (swapb true) cs) /\ outb fin = [].
+Proof. exact swap_be_correct. Qed.
+Print Assumptions C17_source_swap_big_endian.
+
+Example C17_source_swap_runs :
+  (match call 1000 prog_sbdf_swap_be [VPtr RIn 0; VInt 4; VInt 2] [1; 2; 3; 4; 5; 6; 7; 8] with ONormal s => Some (inb s) | _ => None end) = Some [4; 3; 2; 1; 8; 7; 6; 5] /\
+  (match call 1000 prog_sbdf_swap_be [VPtr RIn 0; VInt 16; VInt 1] [0; 1; 2; 3; 4; 5; 6; 7; 8; 9; 10; 11; 12; 13; 14; 15] with ONormal s => Some (inb s) | _ => None end)
+    = Some [15; 14; 13; 12; 11; 10; 9; 8; 7; 6; 5; 4; 3; 2; 1; 0].
+Proof. split; vm_compute; reflexivity. Qed.
